@@ -33,7 +33,7 @@ TDrops == /\ IsEv("drops") /\ Adv
           /\ ToSet(Rec[l].after) = ({ cell[i] : i \in 1..MaxCells } \ {0}) \cup lost
           /\ Rec[l].twice = <<>>
           /\ UNCHANGED chvars
-TInternal == (\E t \in Thread : ChInternal(t)) /\ UNCHANGED l
+TInternal == (\E t \in Thread : IF Solo(t) THEN TryInsertSolo(t) ELSE ChInternal(t)) /\ UNCHANGED l
 TNext == TReset \/ TPush \/ TGot \/ TReread \/ TDrops \/ TInternal
 TSpec == (ChInit /\ l = 1) /\ [][TNext]_tv
 Track == IF l > TLCGet(1) THEN TLCSet(1, l) ELSE TRUE
